@@ -20,7 +20,11 @@ import (
 	"verif/internal/vk"
 )
 
-const VerifDir = "/verif"
+// VerifDir is where the framework's sources, known findings, cache and
+// evidence live: always /verif for registered checks. VERIF_DIR lets a
+// developer run a frozen snapshot of the framework (mutation-testing sweeps
+// that must not see half-finished edits); registered commands never set it.
+var VerifDir = "/verif"
 
 // RepoDir is the tree under test. It is always /repo for registered checks;
 // VERIF_REPO lets a developer point a run at a scratch worktree (mutation
@@ -30,6 +34,9 @@ var RepoDir = "/repo"
 func init() {
 	if v := os.Getenv("VERIF_REPO"); v != "" {
 		RepoDir = v
+	}
+	if v := os.Getenv("VERIF_DIR"); v != "" {
+		VerifDir = v
 	}
 }
 
